@@ -306,6 +306,13 @@ Example C09_ordered_list_config_error_refuted :
 Proof. exact ex_list_sibling_config_error. Qed.
 Print Assumptions C09_ordered_list_config_error_refuted.
 
+Example C09_ex_sibling_through_dependent_sampler_is_undefined :
+  (* sample_from = {'s': DependentSampler(depends=['sibling_1'], ...)}, answers ['1','s'], inputs ['1','sibling_1+1'] *)
+  map (fun b => map fst (sibling_formulas_of dep_boxes b)) dep_boxes = [[n_sib1]; [n_sib1]]
+  /\ ordered_list_check eval1 dep_boxes = inl (GEvalError EUndefVar).
+Proof. exact ex_list_sibling_through_sampler. Qed.
+Print Assumptions C09_ex_sibling_through_dependent_sampler_is_undefined.
+
 (* ================================================================================================
    8. SumGrader
    ================================================================================================ *)
